@@ -443,7 +443,16 @@ def call_method(interp, base, name, node, args, kwargs, st):
         keep = frozenset(tg for tg in base.tags if isinstance(tg, tuple) and tg[0] in ("saved-centroid", "getter-of")) if name in ("copy", "astype") else frozenset()
         if name in ("copy", "astype"):
             keep = keep | frozenset([("val-of", interp.val_id(base))])
-        return Val(dim=dim, kind=base.kind if base.kind in ("arr", "idx", "float") else "arr", deps=deps, pdeps=pdeps, born=t, tags=keep)
+        out_ = Val(dim=dim, kind=base.kind if base.kind in ("arr", "idx", "float") else "arr", deps=deps, pdeps=pdeps, born=t, tags=keep)
+        rb_ = ring_of(base)
+        if rb_ is not None:
+            if name in ("copy", "astype", "round", "clip", "conj", "conjugate"):
+                with_ring(out_, rb_)
+            elif name in ("sum", "max", "min", "mean", "prod"):
+                ax_ = _arg(args, kwargs, 0, "axis")
+                if ax_ is not None and ax_.has_const() and ax_.const in (1, -1):
+                    with_ring(out_, rb_)
+        return out_
     if name in ("all", "any"):
         interp.emit(st, "reduce", node, fn=name, target=base, axis=_arg(args, kwargs, 0, "axis"), method=True)
         return Val(dim=D0, kind="bool", deps=deps, pdeps=pdeps, born=t)
@@ -599,9 +608,86 @@ def _shape_last_of_call(name, args, kwargs):
     return None
 
 
+RING_POISON = "ring?"
+
+
+def ring_of(v):
+    """ring stencil of a value whose rows run over the vertices of a closed cycle: the set of offsets k such that row i depends
+    on vertex i + k.  frozenset | RING_POISON (row-aligned but lost) | None (not row-aligned / global)."""
+    if v is None:
+        return None
+    if RING_POISON in v.tags:
+        return RING_POISON
+    for t_ in v.tags:
+        if isinstance(t_, tuple) and t_ and t_[0] == "ring":
+            return t_[1]
+    if ("rows-of", "_vertices", 0) in v.tags:
+        return frozenset([0])
+    return None
+
+
+def ring_union(vals):
+    out = None
+    for v in vals:
+        r = ring_of(v)
+        if r == RING_POISON:
+            return RING_POISON
+        if r is not None:
+            out = r if out is None else (out | r)
+    return out
+
+
+def with_ring(v, r):
+    if r is None or not isinstance(v, Val) or v.kind not in ("arr", "unknown"):
+        return v
+    keep = frozenset(t_ for t_ in v.tags if not (isinstance(t_, tuple) and t_ and t_[0] == "ring") and t_ != RING_POISON)
+    v.tags = keep | ({RING_POISON} if r == RING_POISON else {("ring", frozenset(r))})
+    return v
+
+
+_RING_ELEMENTWISE = {"add", "subtract", "multiply", "divide", "true_divide", "arccos", "arcsin", "arctan2", "sin", "cos", "tan", "sqrt", "square",
+                     "abs", "absolute", "negative", "array", "asarray", "copy", "asanyarray", "maximum", "minimum", "mod", "where", "clip", "power",
+                     "hypot", "sign", "nan_to_num", "ascontiguousarray"}
+_RING_ROWWISE = {"sum", "nansum", "mean", "max", "min", "amax", "amin", "prod", "any", "all"}
+
+
+def _ring_of_call(name, mod, args, kwargs):
+    a0 = args[0] if args else None
+    if mod == "numpy" and name == "roll" and a0 is not None:
+        r = ring_of(a0)
+        if r is None or r == RING_POISON:
+            return r
+        k = args[1] if len(args) > 1 else kwargs.get("shift")
+        ax = args[2] if len(args) > 2 else kwargs.get("axis")
+        if ax is not None and not (ax.has_const() and ax.const == 0):
+            return r if (ax.has_const() and ax.const in (1, -1)) else RING_POISON
+        if k is None or not k.has_const() or not isinstance(k.const, int):
+            return RING_POISON
+        return frozenset(o - k.const for o in r)           # roll(x, k)[i] = x[i - k]
+    if mod == "numpy" and name in _RING_ELEMENTWISE:
+        return ring_union(args)
+    if (mod == "numpy" and name in _RING_ROWWISE) or (mod == "numpy.linalg" and name == "norm") or (mod == "numpy" and name in ("cross", "einsum")):
+        r = ring_of(a0) if name not in ("cross",) else ring_union(args[:2])
+        if r is None:
+            return None
+        if name == "cross":
+            return r
+        ax = kwargs.get("axis", args[2] if (name == "norm" and len(args) > 2) else (args[1] if (name != "norm" and len(args) > 1) else None))
+        if ax is not None and ax.has_const() and ax.const in (1, -1):
+            return r
+        return None                                          # reduced over the ring (or over everything): a global quantity
+    return None
+
+
 def call_ext(interp, ext, node, args, kwargs, st):
     out = _call_ext(interp, ext, node, args, kwargs, st)
     cext = canonical(ext)
+    if isinstance(out, Val) and out.kind in ("arr", "unknown") and (cext.startswith("numpy.")):
+        try:
+            m_, _, n_ = cext.rpartition(".")
+            with_ring(out, _ring_of_call(n_, m_, args, kwargs))
+        except Exception:
+            pass
     if cext.startswith("numpy.") and cext.count(".") == 1 and isinstance(out, Val) and out.kind in ("arr", "unknown") and shape_last(out) is None:
         try:
             sl = _shape_last_of_call(cext.rpartition(".")[2], args, kwargs)
